@@ -48,6 +48,14 @@ def slice {α} (xs : List α) (lo hi : Int) : GoM (List α) :=
 def byteToString (b : UInt8) : List UInt8 :=
   if b < 128 then [b] else [(0xC0 : UInt8) ||| (b >>> 6), (0x80 : UInt8) ||| (b &&& 0x3F)]
 
+/-- `x, err := f(); if err != nil { return …, e }` with an `e` that does not mention `err`: an error VALUE of the callee is
+replaced; a panic is not an error value and goes on unwinding -/
+def replaceErr {α} (m : GoM α) (e : GoErr) : GoM α :=
+  match m with
+  | .ok v => .ok v
+  | .error (.err _) => .error e
+  | .error other => .error other
+
 /-- `*p` -/
 def deref {α} : Option α → GoM α
   | some a => pure a
